@@ -88,3 +88,46 @@ Example C05_break_guard_nonvacuous :
   transl_ok [IStmt SBreak] = false.
 Proof. exact break_guard_examples. Qed.
 Print Assumptions C05_break_guard_nonvacuous.
+
+(* ---------------------------------------------------------------- configured before use *)
+(* For every accepted program whose devices are declared by top-level statements before the main
+   loop or (hoisted kinds) in its body, used after their declaration, with unique names and one
+   mode per pin ([well_placed]), for every button history and every N: in the whole firmware trace
+   every command, injected poll, tick and handler command on a pin / UART / Servo / LCD is preceded
+   by a fitting configuration event of that resource, and no pin is configured to two modes. *)
+Theorem C05_configured_before_use : forall inp n its,
+  transl_ok its = true -> well_placed its = true ->
+  cbu (exec inp n its) = true /\ one_mode (exec inp n its) = true.
+Proof. exact configured_before_use. Qed.
+Print Assumptions C05_configured_before_use.
+
+Example C05_configured_nonvacuous : well_placed w_good = true /\ transl_ok w_good = true /\
+  cbu (exec no_input 2 w_good) = true /\ length (exec no_input 2 w_good) = 16%nat.
+Proof. exact good_well_placed. Qed.
+Print Assumptions C05_configured_nonvacuous.
+
+(* ---------------------------------------------------------------- housekeeping *)
+(* For every program, history and N (no guard): setup() contains no poll / tick / handler event,
+   and every pass consists of exactly the expected polls in sorted order (each followed only by its
+   own handler's output), then exactly the expected ticks, then user events only. *)
+Theorem C05_housekeeping_once : forall inp n its,
+  forallb is_user (fst (fst (exec_phases inp n its))) = true /\
+  Forall (fun t => hk_ok (poll_pins (transl its)) (tick_list (transl its)) t = true)
+         (snd (fst (exec_phases inp n its))).
+Proof. exact housekeeping_once. Qed.
+Print Assumptions C05_housekeeping_once.
+
+(* the same, spelled out for one pass from any store and button state *)
+Theorem C05_pass_shape : forall m inp p v h,
+  exists tp tb, snd (fst (run_pass m inp p v h)) = tp ++ map ETick (tick_list p) ++ tb /\
+    forallb is_hk tp = true /\ forallb is_user tb = true /\
+    flat_map (fun e => match e with EPoll q => [q] | _ => [] end) tp = poll_pins p.
+Proof. exact pass_shape. Qed.
+Print Assumptions C05_pass_shape.
+
+Example C05_housekeeping_nonvacuous :
+  poll_pins (transl w_good) = [4] /\
+  map (firstn 3) (snd (fst (exec_phases odd_input 2 w_good))) =
+    [[EPoll 4; EHUse RSer true; EHand 9]; [EPoll 4; EUse (RPin 5) true; EMark 2]].
+Proof. exact good_housekeeping. Qed.
+Print Assumptions C05_housekeeping_nonvacuous.
